@@ -824,6 +824,31 @@ func poolBufferOrigin(p *Prog, v ssa.Value) *ssa.Call {
 			}
 		})
 	}
+	// a field of a local object that a helper fills in (`m.attachBuffer(pkt)` stores the pooled buffer into pkt.buffer):
+	// the values the helper stores to the same field path of the parameter the object is passed as
+	filledByCallee := func(al *ssa.Alloc, addr ssa.Value, visit func(ssa.Value)) {
+		instrsOf(al.Parent(), func(in ssa.Instruction) {
+			c, ok := in.(*ssa.Call)
+			if !ok {
+				return
+			}
+			sc := c.Call.StaticCallee()
+			if sc == nil || !p.InUniverse(sc) || sc.Blocks == nil {
+				return
+			}
+			for k, a := range c.Call.Args {
+				if k >= len(sc.Params) || cellAddr(p.origin(a)) != ssa.Value(al) && p.origin(a) != ssa.Value(al) {
+					continue
+				}
+				par := sc.Params[k]
+				instrsOf(sc, func(in2 ssa.Instruction) {
+					if st, ok := in2.(*ssa.Store); ok && p.origin(addrRoot(st.Addr)) == ssa.Value(par) && sameFieldPath(st.Addr, addr) {
+						visit(st.Val)
+					}
+				})
+			}
+		})
+	}
 	var walk func(v ssa.Value, d int)
 	walk = func(v ssa.Value, d int) {
 		if v == nil || seen[v] || d > 30 || get != nil {
@@ -869,6 +894,7 @@ func poolBufferOrigin(p *Prog, v ssa.Value) *ssa.Call {
 							walk(st.Val, d+1)
 						}
 					}
+					filledByCallee(al, x.X, func(v ssa.Value) { walk(v, d+5) })
 				}
 				paramRooted(x.X, func(v ssa.Value) { walk(v, d+1) })
 			}
@@ -880,6 +906,7 @@ func poolBufferOrigin(p *Prog, v ssa.Value) *ssa.Call {
 						walk(st.Val, d+1)
 					}
 				}
+				filledByCallee(al, x, func(v ssa.Value) { walk(v, d+5) })
 			}
 			paramRooted(x, func(v ssa.Value) { walk(v, d+1) })
 		}
